@@ -150,3 +150,50 @@ def judge_vectors(chk, cfg, r, run, props):
 
 
 PLANS.update({"C02": plan_C02, "C03": plan_C03, "C17": plan_C17})
+
+
+def simple(chk, module, cfgs, props, invariants, cases="MC_Cases", extra_constants="", workers=8, timeout=1800, max_exchanges=1):
+    for cfg in cfgs:
+        run = "%s.%s.%s.%s" % (chk.prop, module, cases, cfg)
+        r = tlc(module, scenario_cfg(cfg, cases, invariants, max_exchanges, extra_constants), run,
+                workers=workers, timeout=timeout)
+        if not r["ok"]:
+            raise ToolError("TLC scenario %s failed (model-level):\n%s" % (run, "\n".join(r["log"][-40:])))
+        log("TLC %s: %d distinct states, %d vectors, %.1fs" % (run, r["distinct"], r["n_vec"], r["wall"]))
+        chk.add_tlc(r)
+        judge_vectors(chk, cfg, r, run, props)
+
+
+def plan_C05(chk, tier, seed):
+    cfgs = ["none", "all"] if tier == "quick" else ALL8
+    inv = ["TypeOK", "DecodeTotal", "StatusByFaultKind", "Emit"]
+    simple(chk, "MC_Faults", cfgs, ["C05"], inv, extra_constants='    SeedKinds = {"min", "full"}\n')
+    simple(chk, "MC_Commands", ["none", "all"], ["C05"], ["TypeOK", "DecodeTotal", "StatusByFaultKind", "CommandTableTotal", "Emit"],
+           cases="CommandCases")
+    return ("every single fault (remove each required member at every nesting level, truncate at every byte offset, "
+            "duplicate each key adjacent and at the end, widen every integer / key / length head to every wider form, "
+            "make every string and container indefinite, replace every value by a representative of every other data "
+            "type, every unassigned / unsupported command byte) applied to the minimal and the full request of every "
+            "command; TLC checks on the model that the property's fault-kind table agrees with the streaming decoder "
+            "(StatusByFaultKind) and emits the faulty messages, replayed through ctap2::Request::deserialize")
+
+
+def plan_C11(chk, tier, seed):
+    simple(chk, "MC_Commands", ["none", "all"], ["C11"], ["TypeOK", "DecodeTotal", "CommandTableTotal", "Emit"])
+    chk.exhaustive = True
+    return ("all 256 command bytes x 12-13 payload classes through ctap2::Request::deserialize, and all 256 bytes "
+            "through Operation::try_from / u8::from / VendorOperation::try_from; TLC checks exactness, totality and "
+            "injectivity of the table on the model (ASSUMEs + CommandTableTotal); the 256-value domain is enumerated "
+            "completely on both sides")
+
+
+def plan_C18(chk, tier, seed):
+    simple(chk, "MC_Enums", ["none", "all"], ["C18"], ["TypeOK", "IdentifierTables", "Emit"])
+    chk.exhaustive = True
+    return ("every identifier table: each valid spelling, every single-character deletion / substitution / insertion, "
+            "case variants, prefixes, extensions and the names of the other tables through TryFrom<&str> and through "
+            "the CBOR decoder; all 256 numbers through TryFrom<u8> / the decoder plus threshold integers; permission "
+            "bits and from_bits over all 256 values; every status code number")
+
+
+PLANS.update({"C05": plan_C05, "C11": plan_C11, "C18": plan_C18})
